@@ -315,6 +315,8 @@ impl AddressRange {
     }
 
     fn limited_count(self, limit: u16) -> Result<Self, InvalidRange> {
+        // the fields are public, so the range may not have come from `try_from`
+        let _ = Self::try_from(self.start, self.count)?;
         if self.count > limit {
             return Err(InvalidRange::CountTooLargeForType(self.count, limit));
         }
